@@ -48,6 +48,9 @@ CHECKS = {
  "C14": ("model_checking", "exhaustive stiffness/tolerance ladders on the real Radau and BDF with closed-form and reference oracles, plus a per-step monitor binding accepted Radau steps to the extracted collocation tableau",
          "Every (method, family, tolerance, Jacobian source) is run over the whole stiffness ladder k=1e2..1e10 (Prothero-Robinson, linear systems n=1..8 with 1..n-1 fast modes, kinetics chains) and the nonlinear problems (Robertson, Van der Pol mu=10..1000) over a tolerance ladder: Success, accuracy, step count and work bounded along the ladder, linear invariants; in addition every accepted Radau step of the nonlinear runs must solve the stage equations of the extracted tableau to tolerance (one exact Newton correction computed by the harness).",
          "invariants to rounding with the user Jacobian, to tolerance with the finite-difference one; nonlinear reference = Radau at rtol 1e-11", "DESIGN.md §3 C14", "E1"),
+ "C15": ("model_checking", "exhaustive differential enumeration of dimension x mass pattern x Jacobian band pattern x storage pairs on the real Radau/BDF",
+         "For every (n, mass pattern, Jacobian band): all storage pairs holding the same entries must give bitwise identical trajectories; M y'=f is compared with y'=M^-1 f; the algebraic residual of the index-1 DAE is checked at every sample; finite-difference vs analytic Jacobian; and with no mass override every mass storage (asymmetric bands included) and the low-level builder defaults must reproduce y'=f bitwise.",
+         "tolerance-scale comparisons use 50*naccpt*(atol+rtol*|y|); mass matrices are supported by Radau only (BDF is checked for Jacobian storages)", "DESIGN.md §3 C15", "E1"),
  "C16": ("model_checking", "exhaustive enumeration of all small-alphabet matrices (real and complex, n<=3) plus enumerated structured families to 12x12, residuals in double-double",
          "Every matrix over the alphabet is factorised and solved on the real lu_decomp/lin_solve(_complex); exact integer determinants decide singular vs nonsingular; residual bound, multiplier bound, error kinds and immutability of the factors are checked on every case.",
          "backward-stability constant c = 8*rho (growth factor read off the factors, asserted <= 2^(n-1)); complex multipliers bounded by sqrt(2) because the port pivots on |re|+|im|", "DESIGN.md §3 C16", "E1"),
